@@ -17,7 +17,7 @@ CLAIMS = {
              "cursor+small constant does not overflow; by-reference parameters do not alias.",
         technique="static analysis: difference-bound abstract interpretation + typestate + table checks over the "
                   "exported clang AST/CFG",
-        ref="DESIGN.md section 4 C01"),
+        ref="DESIGN.md section 5 C01"),
     "C02": dict(
         text="Static analysis, partial: pattern literals and all declared Prefix/Suffix/attribute lengths in the five "
              "character specialisations against the documented tag spellings; finder word list, size, group and "
@@ -28,7 +28,7 @@ CLAIMS = {
              "equality of the output with the documented expansion.",
         note=TRUST + "Documented spellings in rules/C02.py (from Documentation/Template.md).",
         technique="static analysis: constant-table/literal agreement, switch dispatch and protocol checks over the exported AST",
-        ref="DESIGN.md section 4 C02"),
+        ref="DESIGN.md section 5 C02"),
     "C03": dict(
         text="Static analysis, partial: sink accounting of every stream write in renderVariable/renderSuperVariable "
              "(literal template slice, escaper call, or CopyValueTo with the escaper as string function), "
@@ -39,7 +39,7 @@ CLAIMS = {
              "structural clauses; not the universally quantified string claims.",
         note=TRUST + "HTML entity table in rules/C03.py.",
         technique="static analysis: effect/sink accounting per renderer, switch-arm protocol, constant agreement",
-        ref="DESIGN.md section 4 C03"),
+        ref="DESIGN.md section 5 C03"),
     "C04": dict(
         text="Static analysis, partial: operator ranks vs the precedence groups parsed on every run from "
              "Documentation/Template.md; anchored rank comparisons of evaluate(); symbol->operator map of getOperation "
@@ -51,7 +51,7 @@ CLAIMS = {
              "loop itself are not decided.",
         note=TRUST + "Operator tables in rules/C04.py; the documentation section is the oracle for ranks.",
         technique="static analysis: enum/dispatch table checks, CFG must-facts for division guards, sibling comparison",
-        ref="DESIGN.md section 4 C04"),
+        ref="DESIGN.md section 5 C04"),
     "C05": dict(
         text="Static analysis, partial: difference-bound abstract interpretation (E-ZONE) over the clang CFG of the "
              "uninstantiated JSON parser, UnEscape and number scanner proves every raw read of the input buffer in "
@@ -63,7 +63,7 @@ CLAIMS = {
              "parameters do not alias.",
         technique="static analysis: difference-bound abstract interpretation of cursors over clang CFGs "
                   "(libTooling exporter + Python engine)",
-        ref="DESIGN.md section 4 C05, section 3.1 E-ZONE"),
+        ref="DESIGN.md section 5 C05, section 3.1 E-ZONE"),
     "C07": dict(
         text="Static analysis, partial: must-pass-through/typestate over the clang CFG of the uninstantiated parser: "
              "the success return of Parse is reached only with the zone fact offset == length; every failing exit of "
@@ -72,7 +72,7 @@ CLAIMS = {
              "rejects by returning 0 and both callers honour it. Decides the failure protocol on all paths.",
         note=TRUST + "Contracts table; does not decide the acceptance grammar of number/hex sub-scanners.",
         technique="static analysis: CFG must-analysis + partitioned zone facts (typestate x difference bounds)",
-        ref="DESIGN.md section 4 C07"),
+        ref="DESIGN.md section 5 C07"),
     "C06": dict(
         text="Static analysis, partial: E-TAB against RFC 8259 on the uninstantiated sources (all five character "
              "specialisations): escape-letter map of UnEscape, whitespace set, keyword literals and their lengths, "
@@ -83,7 +83,7 @@ CLAIMS = {
              "denotation of every document nor numeric accuracy.",
         note=TRUST + "Reference tables in rules/jsontab.py (RFC 8259 sections 2 and 7).",
         technique="static analysis: constant-table and switch-dispatch checks against RFC 8259, bit-vector path summaries",
-        ref="DESIGN.md section 4 C06"),
+        ref="DESIGN.md section 5 C06"),
     "C08": dict(
         text="Static analysis, partial: Escape's map (case labels, replacement table, range arms) composed with "
              "UnEscape's map is the identity; the exact set of units Escape rewrites (case labels plus value-sets of "
@@ -93,7 +93,7 @@ CLAIMS = {
              "precision is forwarded. Decides escaping/structure clauses, not round-trip equality of numbers.",
         note=TRUST + "Reference: RFC 8259 section 7. Number text is C10/C11 territory.",
         technique="static analysis: table inversion, exact value-sets of range predicates, switch exhaustiveness",
-        ref="DESIGN.md section 4 C08"),
+        ref="DESIGN.md section 5 C08"),
     "C09": dict(
         text="Static analysis, thin: 64-bit overflow boundary constants (floor((2^64-1)/10) and its digit), signed "
              "limit, digit window, decimal range constants; power routines reached only after the range rejection "
@@ -104,7 +104,7 @@ CLAIMS = {
              "DBL_MAX and 1e310.",
         note=TRUST + "Mathematical identities computed with Python integers.",
         technique="static analysis: constant/table identities, CFG dominance, sibling idiom pairing, typestate, zone bounds",
-        ref="DESIGN.md section 4 C09"),
+        ref="DESIGN.md section 5 C09"),
     "C10": dict(
         text="Static analysis, thin: digit tables, interval-proven table indices and unsigned-only instantiations of "
              "IntToString (instantiation view), IEEE-754 parameter tables, integer buffer-size formula for every "
@@ -113,7 +113,7 @@ CLAIMS = {
              "may-release summaries computed from the model). Does not decide digit-exact equality with printf.",
         note=TRUST + "One stated assumption: the remainder of a division by 10^k prints at most k digits.",
         technique="static analysis: table identities, interval/piecewise-linear index bounds, borrow (stale pointer) dataflow",
-        ref="DESIGN.md section 4 C10"),
+        ref="DESIGN.md section 5 C10"),
     "C12": dict(
         text="Static analysis, partial: typestate of the tagged union over the CFG of every uninstantiated Value "
              "member (all Char_T): every touch of a union member happens with the payload proven to be of that "
@@ -127,7 +127,7 @@ CLAIMS = {
         note=TRUST + "Assumes public methods re-establish the invariant payload kind == discriminant for other "
              "receivers; two named fall-through suppressions (Storage()/End()).",
         technique="static analysis: tagged-union typestate (disjunctive dataflow) + record-layout coverage",
-        ref="DESIGN.md section 4 C12, section 3.1 E-TAG"),
+        ref="DESIGN.md section 5 C12, section 4.3 E-TAG"),
     "C13": dict(
         text="Static analysis, partial: protocol and sibling checks over the uninstantiated HashTable/HArray/HList and "
              "StringUtils::Hash: hash never 0; Hash/Next written only by the table classes; every insert() reached with "
@@ -139,7 +139,7 @@ CLAIMS = {
              "is by data flow and field names, not by local variable names. Not decided: map semantics over histories.",
         note=TRUST + "Memory::AlignSize is assumed to return a power of two >= its argument.",
         technique="static analysis: protocol/ordering checks on the exported AST/CFG, sibling comparison, borrow dataflow",
-        ref="DESIGN.md section 4 C13"),
+        ref="DESIGN.md section 5 C13"),
     "C14": dict(
         text="Static analysis, partial: append siblings write their first element at Storage() + the size before the "
              "update (destination expression and order of the size update, per member of the family); borrowed "
@@ -153,7 +153,7 @@ CLAIMS = {
              "after a reallocation; no code unit narrowed below 32 bits. Not decided: sequence-model equality.",
         note=TRUST + "Byte-wise relocation of elements is assumed valid (no self-pointers).",
         technique="static analysis: sibling destination check, borrow/alias dataflow, zone bounds, CFG dominance, constant tables",
-        ref="DESIGN.md section 4 C14"),
+        ref="DESIGN.md section 5 C14"),
     "C15": dict(
         text="Static analysis, partial: the prefix-exhausted tail of IsLess/IsGreater must be asymmetric in the two "
              "lengths (decided by swapping the parameters in the exported expression and comparing normal forms) and "
@@ -165,7 +165,7 @@ CLAIMS = {
              "Not decided: order axioms for all values, permutation result for all inputs.",
         note=TRUST,
         technique="static analysis: symmetry/normal-form argument on return expressions, sibling comparison, recursion-shape check",
-        ref="DESIGN.md section 4 C15"),
+        ref="DESIGN.md section 5 C15"),
     "C16": dict(
         text="Static analysis, partial: ownership typestate (E-OWN) of the storage block of Array, String, StringStream "
              "and HashTable on the CFG of every member that frees or retargets it -- the block owned on entry is released, "
@@ -184,7 +184,7 @@ CLAIMS = {
         note=TRUST + "Elements are assumed relocatable by byte copy; by-reference parameters alias the receiver only "
              "where the alias rule says so (element pointers/references).",
         technique="static analysis: ownership typestate dataflow with callee summaries, borrow/alias dataflow, who-may-call and exhaustiveness checks",
-        ref="DESIGN.md section 4 C16"),
+        ref="DESIGN.md section 5 C16"),
     "C17": dict(
         text="Static analysis, partial: effect analysis (E-FX) over the functions clang instantiates for Template::Render: "
              "memory regions are tracked as symbols through pointer/reference flow (owning storage pointers stay with "
@@ -202,7 +202,7 @@ CLAIMS = {
         note=TRUST + "drivers/inst.cpp is assumed to instantiate the documented entry points; destructors of local "
              "containers release only memory of the call (C16).",
         technique="static analysis: interprocedural region/effect analysis with root propagation over the instantiated call graph, who-may-call and dominance checks",
-        ref="DESIGN.md section 4 C17, section 3.1 E-FX"),
+        ref="DESIGN.md section 5 C17, section 4.3 E-FX"),
     "C18": dict(
         text="Static analysis, partial: in Value::GroupBy a value that carries the group's name (the key parameters or "
              "locals computed from them alone) is compared or looked up against something that varies per element, "
@@ -215,7 +215,7 @@ CLAIMS = {
              "working copy. Necessary structural clauses; not the partition equality.",
         note=TRUST,
         technique="static analysis: taint flow of the key parameters, CFG reachability, interprocedural effect summary (physical constness)",
-        ref="DESIGN.md section 4 C18"),
+        ref="DESIGN.md section 5 C18"),
     "C19": dict(
         text="Static analysis, thin: E-ZONE under the class invariant index_ <= MaxIndex() (assumed on entry, proven "
              "on every exit, re-assumed after calls) proves storage_[e] in range for the BigInt members whose index "
@@ -226,7 +226,7 @@ CLAIMS = {
         note=TRUST + "Members not decided for storage bounds: ShiftLeft/ShiftRight block moves, Multiply, Divide, "
              "doOperation, copy, SetIndex (caller contract).",
         technique="static analysis: difference-bound abstract interpretation with a class invariant, scan-shape and sibling checks",
-        ref="DESIGN.md section 4 C19"),
+        ref="DESIGN.md section 5 C19"),
     "C20": dict(
         text="Static analysis, partial but exhaustive over code points: every CFG path of the three "
              "UnicodeToUTF::ToUTF specialisations is summarised in a bit-level abstract domain (interval of the code "
@@ -239,10 +239,10 @@ CLAIMS = {
              "algebra are reported as ANALYSIS-BROKEN, never as a verdict. Cursor arithmetic selecting the digits is "
              "C05's bounds analysis, not value-checked.",
         technique="static analysis: path summaries in a bit-vector abstract domain + exact predicate value-sets",
-        ref="DESIGN.md section 4 C20"),
+        ref="DESIGN.md section 5 C20"),
 }
 
 NA = {
     "C11": "joint numeric round-trip of two approximate conversions; no clause is visible in the shape of the code "
-           "beyond the tables checked under C09/C10 (DESIGN.md section 5)",
+           "beyond the tables checked under C09/C10 (DESIGN.md section 6)",
 }
